@@ -158,9 +158,16 @@ func RunReal(F *RFuncs, c Config, r *rand.Rand) (*Outcome, []string, []string) {
 		ins := mkIns()
 		outer := make(chan (<-chan int), c.OCap)
 		seed := r.Int63()
+		seq := ins
+		if c.Slice != nil {
+			seq = make([]chan int, len(c.Slice))
+			for p, j := range c.Slice {
+				seq[p] = ins[j]
+			}
+		}
 		go func() {
 			jr := rand.New(rand.NewSource(seed))
-			for _, ch := range ins {
+			for _, ch := range seq {
 				jitter(jr)
 				outer <- ch
 			}
@@ -396,8 +403,8 @@ func MainR(F *RFuncs) {
 					runCfg(c, 4*reps)
 				}
 			}
-			if sys == "joinsc" {
-				for _, c := range DupSliceConfigs(3, 2) {
+			if sys == "joinsc" || sys == "joincc" {
+				for _, c := range DupSliceConfigs(sys, 3, 2) {
 					runCfg(c, reps)
 				}
 			}
